@@ -4,7 +4,7 @@
 //! every offset). No schedule: this is enumeration of fault points. Used by C18, C15, C16.
 
 use crate::desc::{self, Entropy};
-use crate::engine::{Found, Stats};
+use crate::engine::Stats;
 use crate::exec::{mutator_kind, SpyVal};
 use crate::mix::F64_PATTERNS;
 use crate::props::{self, Violation};
@@ -293,7 +293,7 @@ pub fn sweep_c18(seed: u64, exhaust_len: usize, sampled: u64) -> CompOutcome {
             hs.push(sc.spawn(move || {
                 let mut stats = Stats::default();
                 let mut found: Vec<Found2> = vec![];
-                let mut run_case = |c: SourceCase, idx: u64, stats: &mut Stats, found: &mut Vec<Found2>| {
+                let run_case = |c: SourceCase, idx: u64, stats: &mut Stats, found: &mut Vec<Found2>| {
                     let (out, v) = eval_source_case(&c);
                     stats.evaluations += 1;
                     let short = matches!(&c.entropy, Entropy::Bytes(b) if b.len() < 8 * c.draws.len());
